@@ -51,7 +51,7 @@ type c01Group struct {
 
 // c01Params describes the transport parameters the station receives.
 type c01Params struct {
-	Kind   string `json:"k"`             // absent | empty | set
+	Kind   string `json:"k"`              // absent | empty | set
 	Rand   *bool  `json:"rand,omitempty"` // randomize_dst_port
 	Prefix *int32 `json:"pid,omitempty"`  // prefix_id (prefix transport)
 	Flush  *int32 `json:"fl,omitempty"`   // custom_flush_policy (prefix transport)
@@ -397,7 +397,7 @@ func c01RefAddress(seed []byte, lib uint32, nets []c01RefNet) ([]byte, string, e
 
 func c01IPString(b []byte) string {
 	if a, ok := netip.AddrFromSlice(b); ok {
-		return a.String()
+		return a.Unmap().String() // a 16-byte rendering of an IPv4 address is the same address
 	}
 	return "malformed:" + hex.EncodeToString(b)
 }
@@ -442,7 +442,6 @@ func c01RefDerive(in c01Input, groups []c01Group, genKnown bool) (c01Out, error)
 	if err != nil {
 		return out, err
 	}
-	out.Seed = hex.EncodeToString(seed)
 	if !genKnown {
 		out.Err = c01ErrGen
 		return out, nil
@@ -508,6 +507,7 @@ func c01RefDerive(in c01Input, groups []c01Group, genKnown bool) (c01Out, error)
 			}
 		}
 	}
+	out.Seed = hex.EncodeToString(seed)
 	out.IP = c01IPString(ip)
 	out.Port = port
 
